@@ -520,9 +520,10 @@ Fixpoint extract (g : cfg) (pres : bool) (cwd : path) (dp : list name) (dirName 
 
 Inductive pushop :=
 | PBlob (title : str) (c : N)
-| PDir (title : str) (ts : list N) (es : list entry).   (* ts: header times of the entries *)
+| PDir (title : str) (ts : list N) (es : list entry)    (* ts: header times of the entries *)
+| PManifest (layers : list (str * N)).   (* unnamed image manifest: titles and content tags of its layers *)
 
-Definition push_title (o : pushop) : str := match o with PBlob t _ => t | PDir t _ _ => t end.
+Definition push_title (o : pushop) : str := match o with PBlob t _ => t | PDir t _ _ => t | PManifest _ => [] end.
 
 (* absPath + resolveWritePath: raw components of the (absolute) target, or None = ErrPathTraversalDisallowed *)
 Definition write_path (g : cfg) (wd : path) (title : str) : option (list comp) :=
@@ -530,76 +531,130 @@ Definition write_path (g : cfg) (wd : path) (title : str) : option (list comp) :
   let cl := clean_abs raw in
   if inside wd cl then Some (if fixA g then Nms cl else raw) else None.
 
-Record store := mkStore { st_fs : fsys; st_names : list str }.
+(* st_names: names pushed successfully (plus the unnamed contents of the fallback storage, under
+   names no title can have); st_d2p: digestToPath - content tag -> path of the file it was last
+   saved to (consulted by Fetch when a manifest's named layers are restored) *)
+Record store := mkStore { st_fs : fsys; st_names : list str; st_d2p : list (N * path) }.
 
-Definition push (g : cfg) (pres : bool) (wd cwd : path) (s : store) (o : pushop) : store * bool :=
-  let title := push_title o in
-  match title with
-  | [] =>   (* no name: fallback content-addressed storage, no file-system effect; the same
-               blob twice is "already exists" (recorded under a name no title can have) *)
-    match o with
-    | PBlob _ c =>
-      let mk := [0%N; c] in
-      if existsb (str_eqb mk) (st_names s) then (s, false)
-      else (mkStore (st_fs s) (mk :: st_names s), true)
-    | PDir _ _ _ => (s, true)
+Definition ensure_write_dir (g : cfg) (wd : path) (f : fsys) (dir : list name) (rawdir : list comp) : option fsys :=
+  match (if fixN g then strip_prefix wd dir else None) with
+  | Some rel =>   (* ensureDirNoSymlink: os.MkdirAll(base), then element by element *)
+    match mkdir_all f (Nms wd) 511 with
+    | Some f0 => mkdir_real f0 wd rel 511
+    | None => None
     end
-  | _ =>
+  | None => mkdir_all f rawdir 511
+  end.
+
+(* Store.push of a named blob: [w] is the content written, [good] whether it verifies against
+   the descriptor (if not, the partially written file is removed again) *)
+Definition push_blob (g : cfg) (wd : path) (s : store) (title : str) (w : N) (good : bool) : store * bool :=
   if existsb (str_eqb title) (st_names s) then (s, false) else
   match write_path g wd title with
   | None => (s, false)
   | Some raw =>
     let f := st_fs s in
-    match o with
-    | PBlob _ c =>
-      let dir := clean_abs (removelast raw) in
-      let made := match (if fixN g then strip_prefix wd dir else None) with
-                  | Some rel =>   (* ensureDirNoSymlink: os.MkdirAll(base), then element by element *)
-                    match mkdir_all f (Nms wd) 511 with
-                    | Some f0 => mkdir_real f0 wd rel 511
-                    | None => None
-                    end
-                  | None => mkdir_all f (Nms dir) 511
-                  end in
-      match made with
-      | None => (s, false)
-      | Some f1 =>
-        match (if fixW g && negb (path_eqb (clean_abs raw) wd)
-               then unlink_if_symlink f1 (clean_abs raw) else Some f1) with
-        | None => (mkStore f1 (st_names s), false)
-        | Some f1' =>
-          match write_at f1' raw c 438 with
-          | None => (mkStore f1' (st_names s), false)
-          | Some f2 =>
-            match c with
-            | 0%N =>   (* content tag 0 = content that fails verification: the file is removed again *)
-              match remove_at f2 (clean_abs raw) with
-              | Some f3 => (mkStore f3 (st_names s), false)
-              | None => (mkStore f2 (st_names s), false)
-              end
-            | _ => (mkStore f2 (title :: st_names s), true)
-            end
-          end
+    let dir := clean_abs (removelast raw) in
+    match ensure_write_dir g wd f dir (Nms dir) with
+    | None => (s, false)
+    | Some f1 =>
+      match (if fixW g && negb (path_eqb (clean_abs raw) wd)
+             then unlink_if_symlink f1 (clean_abs raw) else Some f1) with
+      | None => (mkStore f1 (st_names s) (st_d2p s), false)
+      | Some f1' =>
+        match write_at f1' raw w 438 with
+        | None => (mkStore f1' (st_names s) (st_d2p s), false)
+        | Some f2 =>
+          if good then (mkStore f2 (title :: st_names s) ((w, clean_abs raw) :: st_d2p s), true)
+          else match remove_at f2 (clean_abs raw) with
+               | Some f3 => (mkStore f3 (st_names s) (st_d2p s), false)
+               | None => (mkStore f2 (st_names s) (st_d2p s), false)
+               end
         end
       end
-    | PDir _ ts es =>
-      let dp := clean_abs raw in
-      let made := match (if fixN g then strip_prefix wd dp else None) with
-                  | Some rel =>   (* ensureDirNoSymlink: os.MkdirAll(base), then element by element *)
-                    match mkdir_all f (Nms wd) 511 with
-                    | Some f0 => mkdir_real f0 wd rel 511
-                    | None => None
-                    end
-                  | None => mkdir_all f raw 511
-                  end in
-      match made with
-      | None => (s, false)
-      | Some f1 =>
-        let '(f2, ok) := extract g pres cwd dp title f1 es ts [] in
-        (mkStore f2 (if ok then title :: st_names s else st_names s), ok)
+    end
+  end.
+
+Definition push_dir (g : cfg) (pres : bool) (wd cwd : path) (s : store) (title : str) (ts : list N) (es : list entry)
+  : store * bool :=
+  if existsb (str_eqb title) (st_names s) then (s, false) else
+  match write_path g wd title with
+  | None => (s, false)
+  | Some raw =>
+    let dp := clean_abs raw in
+    match ensure_write_dir g wd (st_fs s) dp raw with
+    | None => (s, false)
+    | Some f1 =>
+      let '(f2, ok) := extract g pres cwd dp title f1 es ts [] in
+      (mkStore f2 (if ok then title :: st_names s else st_names s) (st_d2p s), ok)
+    end
+  end.
+
+(* ---- manifests: Store.Push restores the named layers whose content the store holds ---- *)
+
+Fixpoint lookup_d2p (l : list (N * path)) (c : N) : option path :=
+  match l with
+  | [] => None
+  | (k, p) :: r => if (k =? c)%N then Some p else lookup_d2p r c
+  end.
+
+Inductive fetched := FNone | FErr | FSome (c : N).
+
+(* Store.Fetch by digest: the file the content was last saved to, as it is NOW (os.Open follows
+   links; reading is not a mutation), else the fallback storage *)
+Definition fetch (s : store) (c : N) : fetched :=
+  match lookup_d2p (st_d2p s) c with
+  | Some p =>
+    match awalk (st_fs s) p true with
+    | WFile _ i => FSome (content (st_fs s) i / 1024)
+    | WNoEnt _ => FNone
+    | WErrNoEnt => FNone
+    | _ => FErr
+    end
+  | None => if existsb (str_eqb [0%N; c]) (st_names s) then FSome c else FNone
+  end.
+
+(* the name under which an unnamed manifest sits in the fallback storage *)
+Fixpoint manifest_marker (layers : list (str * N)) : str :=
+  match layers with
+  | [] => [0%N; 1%N]
+  | (t, c) :: r => 0%N :: 2%N :: c :: t ++ manifest_marker r
+  end.
+
+(* restoreDuplicatesFrom: "not found" is ignored, any other failure ends the push with an error *)
+Fixpoint restore_layers (g : cfg) (wd : path) (s : store) (layers : list (str * N)) : store * bool :=
+  match layers with
+  | [] => (s, true)
+  | (t, c) :: r =>
+    match t with
+    | [] => restore_layers g wd s r
+    | _ =>
+      if existsb (str_eqb t) (st_names s) then restore_layers g wd s r else
+      match fetch s c with
+      | FNone => restore_layers g wd s r
+      | FErr => (s, false)
+      | FSome c' =>
+        let '(s1, ok) := push_blob g wd s t c' ((c' =? c)%N && negb (c =? 0)%N) in
+        if ok then restore_layers g wd s1 r else (s1, false)
       end
     end
-  end
+  end.
+
+Definition push (g : cfg) (pres : bool) (wd cwd : path) (s : store) (o : pushop) : store * bool :=
+  match o with
+  | PManifest layers =>
+    let mk := manifest_marker layers in
+    if existsb (str_eqb mk) (st_names s) then (s, false)
+    else restore_layers g wd (mkStore (st_fs s) (mk :: st_names s) (st_d2p s)) layers
+  | PBlob [] c =>
+    (* no name: fallback content-addressed storage, no file-system effect; the same blob twice is
+       "already exists"; content that fails verification is refused *)
+    let mk := [0%N; c] in
+    if (c =? 0)%N || existsb (str_eqb mk) (st_names s) then (s, false)
+    else (mkStore (st_fs s) (mk :: st_names s) (st_d2p s), true)
+  | PBlob title c => push_blob g wd s title c (negb (c =? 0)%N)
+  | PDir [] _ _ => (s, true)
+  | PDir title ts es => push_dir g pres wd cwd s title ts es
   end.
 
 Fixpoint pushes (g : cfg) (pres : bool) (wd cwd : path) (s : store) (os : list pushop) : store * list bool :=
